@@ -92,6 +92,24 @@ def h_equiv(e, small, done, opcode=None):
     for k in A:
         e.claim_eq("step==halves:" + k, A[k], B[k])
         e.claim_eq("step==single:" + k, A[k], C[k])
+    if small and not done:
+        # the same two drivers with the front end's queries issued between the two halves
+        (d, sd), (g, sg) = mk_toy(e, inp), mk_toy(e, inp)
+
+        def queried(first, second, sim):
+            first()
+            sim.get_memory_table_entries()
+            sim.get_register_representations()
+            sim.get_toy_svg_update_values()
+            second()
+
+        xd = run(lambda: queried(d.first_cycle_step, d.second_cycle_step, d))
+        xg = run(lambda: queried(g.single_step, g.single_step, g))
+        e.claim("same-exception-with-queries", xd == xg == xa, {"exc": [xd, xg]})
+        D, G = snapshot(e, d, sd, q, small), snapshot(e, g, sg, q, small)
+        for k in A:
+            e.claim_eq("step==halves-with-queries-between:" + k, A[k], D[k])
+            e.claim_eq("step==single-with-queries-between:" + k, A[k], G[k])
     e.claim("canary:pc", __import__("symx.ops", fromlist=["cond"]).cond("==", A["pc"], inp.pc) if not done else False)
     if done:
         fresh, sf = mk_toy(e, inp)
